@@ -65,9 +65,15 @@ func runSelection(pref []int, advertised int, seed uint64) (msg string, nontrivi
 func selectOnce(w *hx.World, c hx.Creds, pref []int, advertised int, seed uint64) (msg string, nontrivial bool) {
 	logStart := len(w.BMC.Log)
 	w.BMC.Data.CipherReqs = 0
-	// advertise the subset, one record per suite, in a seed-dependent rotation
+	// advertise the subset in a seed-dependent rotation and record style: one
+	// record per suite; suites sharing authentication and confidentiality merged
+	// into one record listing several integrity algorithms under one ID (22.15.1
+	// allows several algorithms per record); or one record per suite, all under
+	// the same ID. The advertised set of suites is the same in every style.
 	var recs []byte
 	rot := int(seed % 6)
+	style := int(seed/6) % 3
+	merged := map[[2]uint8]bool{}
 	for k := 0; k < 6; k++ {
 		i := (k + rot) % 6
 		if advertised&(1<<uint(i)) == 0 {
@@ -78,13 +84,36 @@ func selectOnce(w *hx.World, c hx.Creds, pref []int, advertised int, seed uint64
 		if i%2 == 1 {
 			r.OEM, r.IANA, r.ID = true, 0x1234+uint32(i), byte(0x80+i)
 		}
-		if s.Integ == 0 {
+		switch style {
+		case 1:
+			g := [2]uint8{s.Auth, s.Conf}
+			if merged[g] {
+				continue
+			}
+			merged[g] = true
+			r.Integs = nil
+			for k2 := 0; k2 < 6; k2++ {
+				j := (k2 + rot) % 6
+				if advertised&(1<<uint(j)) != 0 && universe[j].Auth == s.Auth && universe[j].Conf == s.Conf {
+					r.Integs = append(r.Integs, universe[j].Integ)
+				}
+			}
+		case 2:
+			r.OEM, r.IANA, r.ID = false, 0, 0x11
+		}
+		if len(r.Integs) == 1 && r.Integs[0] == 0 {
 			r.Integs = nil
 		}
 		if s.Conf == 0 {
 			r.Confs = nil
 		}
 		recs = append(recs, r.Bytes()...)
+	}
+	if style == 1 && len(merged) > 0 {
+		ev.Label("advertisement:several-algorithms-per-record")
+	}
+	if style == 2 {
+		ev.Label("advertisement:same-id-for-all-records")
 	}
 	w.BMC.SuiteRecords = recs
 	opts := c.Opts()
@@ -351,5 +380,5 @@ func TestSequences(t *testing.T) {
 }
 
 func TestCoverage(t *testing.T) {
-	ev.RequireLabels(t, 1, "selection-complete", "confirmation-complete", "selection:first-preference-not-advertised", "sequence-of-opens", "confirmation:answered-differs", "confirmation:answered-equals")
+	ev.RequireLabels(t, 1, "selection-complete", "advertisement:several-algorithms-per-record", "advertisement:same-id-for-all-records", "confirmation-complete", "selection:first-preference-not-advertised", "sequence-of-opens", "confirmation:answered-differs", "confirmation:answered-equals")
 }
